@@ -121,6 +121,9 @@ type compiler struct {
 	curLeaveBlock    *ir.Block // leave block of the current loop
 	curContinueBlock *ir.Block // block where a continue should jump to
 	curLoopScope     *scope    // scope of the current loop for break/continue to free to
+	// wether the loop scope is not left by a continue
+	// (counting and for-each loops keep their counter, iterated value and header temporaries over all iterations)
+	curLoopScopeSurvives bool
 
 	// all the type definitions of inbuilt types used by the compiler
 	void                                                                                       *ddpIrVoidType
@@ -2407,6 +2410,9 @@ func (c *compiler) VisitIfStmt(s *ast.IfStmt) ast.VisitResult {
 // for info on how the generated ir works you might want to see https://llir.github.io/document/user-guide/control/#Loop
 func (c *compiler) VisitWhileStmt(s *ast.WhileStmt) ast.VisitResult {
 	loopScopeBack, leaveBlockBack, continueBlockBack := c.curLoopScope, c.curLeaveBlock, c.curContinueBlock
+	survivesBack := c.curLoopScopeSurvives
+	c.curLoopScopeSurvives = false
+	defer func() { c.curLoopScopeSurvives = survivesBack }()
 	switch op := s.While.Type; op {
 	case token.SOLANGE, token.MACHE:
 		condBlock, body, bodyScope := c.cf.NewBlock(""), c.cf.NewBlock(""), newScope(c.scp)
@@ -2488,6 +2494,9 @@ func (c *compiler) VisitForStmt(s *ast.ForStmt) ast.VisitResult {
 	}
 
 	loopScopeBack, leaveBlockBack, continueBlockBack := c.curLoopScope, c.curLeaveBlock, c.curContinueBlock
+	survivesBack := c.curLoopScopeSurvives
+	c.curLoopScopeSurvives = true
+	defer func() { c.curLoopScopeSurvives = survivesBack }()
 
 	c.scp = newScope(c.scp)    // scope for the for body
 	c.visitNode(s.Initializer) // compile the counter variable declaration
@@ -2592,6 +2601,9 @@ func (c *compiler) VisitForStmt(s *ast.ForStmt) ast.VisitResult {
 
 func (c *compiler) VisitForRangeStmt(s *ast.ForRangeStmt) ast.VisitResult {
 	loopScopeBack, leaveBlockBack, continueBlockBack := c.curLoopScope, c.curLeaveBlock, c.curContinueBlock
+	survivesBack := c.curLoopScopeSurvives
+	c.curLoopScopeSurvives = true
+	defer func() { c.curLoopScopeSurvives = survivesBack }()
 
 	c.scp = newScope(c.scp)
 	in, inTyp, isTempIn := c.evaluate(s.In)
@@ -2726,7 +2738,13 @@ func (c *compiler) VisitForRangeStmt(s *ast.ForRangeStmt) ast.VisitResult {
 }
 
 func (c *compiler) VisitBreakContinueStmt(s *ast.BreakContinueStmt) ast.VisitResult {
-	c.exitNestedScopes(c.curLoopScope)
+	if s.Tok.Type != token.VERLASSE && c.curLoopScopeSurvives {
+		// the loop scope (counter, iterated value, header temporaries) lives on, only the scopes inside it are left
+		for scp := c.scp; scp != c.curLoopScope; scp = c.exitScope(scp) {
+		}
+	} else {
+		c.exitNestedScopes(c.curLoopScope)
+	}
 	c.commentNode(c.cbb, s, "")
 	if s.Tok.Type == token.VERLASSE {
 		c.cbb.NewBr(c.curLeaveBlock)
